@@ -150,17 +150,20 @@ def gen_block(ds, d: int, cls: str, cplx: bool, tag: str, allow_zero: bool = Fal
     n = int(PSI[6, d])
     arr = np.zeros(n, dtype=np.complex128 if cplx else np.float64)
     mode = ds.pick(["few", "dense", "stride"], f"{tag}.density", (0.45, 0.35, 0.2)) if d <= 8 else "few"
+    # complex blocks whose real (or imaginary) parts all vanish: tests on "is this block zero" must look at both parts
+    parts = ds.pick(["both", "imag", "real"], f"{tag}.parts", (0.7, 0.2, 0.1)) if cplx else "both"
+    cut = (lambda v: v) if parts == "both" else ((lambda v: complex(0.0, v.imag)) if parts == "imag" else (lambda v: complex(v.real, 0.0)))
     if mode == "few":
         nnz = ds.choose(5, f"{tag}.nnz") + (0 if allow_zero else 1)
         for j in range(min(nnz, n)):
             pos = ds.choose(n, f"{tag}.pos[{j}]")
-            arr[pos] = _val(cls, cplx, ds.choose(10, f"{tag}.val[{j}]"), j)
+            arr[pos] = cut(_val(cls, cplx, ds.choose(10, f"{tag}.val[{j}]"), j))
     else:
         a = ds.choose(10, f"{tag}.a")
         stride = 1 if mode == "dense" else 2 + ds.choose(3, f"{tag}.stride")
         off = ds.choose(stride, f"{tag}.off") if stride > 1 else 0
         for i in range(off, n, stride):
-            arr[i] = _val(cls, cplx, a + i, i)
+            arr[i] = cut(_val(cls, cplx, a + i, i))
     return arr
 
 
